@@ -17,7 +17,7 @@
 (* the scratch buffer of a meta section (lines re-joined with "\n") and    *)
 (* the (offset -> line, column) table that maps scratch positions back.    *)
 (***************************************************************************)
-EXTENDS Naturals, Sequences, FiniteSets, TLC, SequencesExt
+EXTENDS Naturals, Sequences, FiniteSets, TLC, SequencesExt, FiniteSetsExt
 
 CONSTANTS MaxChanges, Faults
 
@@ -51,7 +51,11 @@ FaultKinds == {"badname",     \* @ na-me @        : the bad character
                "dupname",     \* var x expression (again) : the second declaration of the name
                "notype",      \* var q            : where the type should be (end of line)
                "twodecl",     \* var q expression var r identifier : the second 'var'
-               "novar"}       \* q expression     : the first token
+               "novar",       \* q expression     : the first token
+               \* declarations that are cut short: what offends is the token that follows where the declaration should
+               \* go on - the first token of the next line of code, or the end of the section
+               "noname",      \* var
+               "trailcomma"}  \* var q,
 FaultLine(k) ==
   CASE k = "badname" -> <<Tok("@", 1, 0), Tok("na", 2, 1), Tok("-", 1, 0), Tok("me", 2, 0), Tok("@", 1, 1)>>
     [] k = "badname8" -> <<Tok("@", 1, 0), Tok("nAE", 3, 1), Tok("-", 1, 0), Tok("me", 2, 0), Tok("@", 1, 1)>>
@@ -61,9 +65,12 @@ FaultLine(k) ==
     [] k = "notype"  -> <<Tok("var", 3, 0), Tok("q", 1, 1)>>
     [] k = "twodecl" -> <<Tok("var", 3, 0), Tok("q", 1, 1), Tok("expression", 10, 1), Tok("var", 3, 1), Tok("r", 1, 1), Tok("identifier", 10, 1)>>
     [] k = "novar"   -> <<Tok("q", 1, 1), Tok("expression", 10, 1)>>
+    [] k = "noname"  -> <<Tok("var", 3, 0)>>
+    [] k = "trailcomma" -> <<Tok("var", 3, 0), Tok("q", 1, 1), Tok(",", 1, 0)>>
+Spill(k) == k \in {"noname", "trailcomma"}
 FaultTok(k) ==
   CASE k = "badname" -> 3 [] k = "badname8" -> 3 [] k = "nothdr" -> 1 [] k = "unktype" -> 3 [] k = "dupname" -> 4
-    [] k = "notype" -> 0 [] k = "twodecl" -> 4 [] k = "novar" -> 1
+    [] k = "notype" -> 0 [] k = "twodecl" -> 4 [] k = "novar" -> 1 [] k = "noname" -> 0 [] k = "trailcomma" -> 0
 InHeader(k) == k \in {"badname", "badname8", "nothdr"}
 
 \* ---- geometry of a line
@@ -90,19 +97,29 @@ FaultsOf(p) ==
 
 \* the faulty line replaces the header, or is inserted as meta line m
 \* ------------------------------------------------------------- P-layer --
+MetaLines(p, f) ==      \* token lines of the meta section of change f.c with the fault inserted
+  LET m == p[f.c].meta IN
+  IF f.m = 0 THEN m ELSE SubSeq(m, 1, f.m - 1) \o <<FaultLine(f.k)>> \o SubSeq(m, f.m, Len(m))
+\* lines of code (not comments, not empty) after meta line m
+NextCode(ml, m) == {i \in (m + 1)..Len(ml) : Len(ml[i]) > 0 /\ ~IsCmt(ml[i])}
+\* the last line of the section that is not a comment (empty lines are lines of the section)
+LastSectionLine(ml) == Max({i \in 1..Len(ml) : ~IsCmt(ml[i])})
 OffendingPos(p, f) ==
   LET base == LinesBefore(p, f.c) + Len(p[f.c].pre)
       line == IF f.m = 0 THEN base + 1 ELSE base + 1 + f.m
-  IN [line |-> line, col |-> ColOf(FaultLine(f.k), FaultTok(f.k))]
+      ml   == MetaLines(p, f)
+  IN IF f.m > 0 /\ Spill(f.k)
+     THEN IF NextCode(ml, f.m) # {}
+          THEN LET i == Min(NextCode(ml, f.m)) IN [line |-> base + 1 + i, col |-> ml[i][1].g + 1]
+          \* nothing follows: the end of the section, i.e. of its last line
+          ELSE LET i == LastSectionLine(ml) IN [line |-> base + 1 + i, col |-> LineWidth(ml[i]) + 1]
+     ELSE [line |-> line, col |-> ColOf(FaultLine(f.k), FaultTok(f.k))]
 
 \* ------------------------------------------------------------- I-layer --
 \* byte offset of the start of each line (every line is followed by "\n"),
 \* the sectioner's Line.StartPos, and the LinePos table of section.ToBytes:
 \* scratch offset of meta line j -> (file line, column 1)
 RECURSIVE MetaScratchOff(_, _)
-MetaLines(p, f) ==      \* token lines of the meta section of change f.c with the fault inserted
-  LET m == p[f.c].meta IN
-  IF f.m = 0 THEN m ELSE SubSeq(m, 1, f.m - 1) \o <<FaultLine(f.k)>> \o SubSeq(m, f.m, Len(m))
 MetaScratchOff(ml, j) == IF j = 1 THEN 0 ELSE MetaScratchOff(ml, j - 1) + LineWidth(ml[j - 1]) + 1
 \* position reported for scratch offset off: the table entry with the greatest
 \* offset <= off gives (line, col); the column advances by the distance.
@@ -118,7 +135,14 @@ IPos(p, f) ==
      ELSE LET keep  == SetToSortSeq(NonCmtIdx(ml), LAMBDA a, b : a < b)       \* file-order indexes of the copied lines
               sl    == [j \in 1..Len(keep) |-> ml[keep[j]]]                   \* the scratch buffer's lines
               fj    == CHOOSE j \in 1..Len(keep) : keep[j] = f.m              \* the faulty line in the scratch buffer
-              off   == MetaScratchOff(sl, fj) + ColOf(sl[fj], FaultTok(f.k)) - 1
+              \* a declaration that is cut short is noticed at the next token of the scratch buffer: the first token
+              \* of the next non-empty line, or its end; the end lies one past the newline of the last line and is
+              \* reported one byte earlier (metaParser.errf, since the repair of end-of-section-reported-past-the-line)
+              nxt   == {j \in (fj + 1)..Len(sl) : Len(sl[j]) > 0}
+              off   == IF Spill(f.k)
+                       THEN IF nxt # {} THEN MetaScratchOff(sl, Min(nxt)) + sl[Min(nxt)][1].g
+                            ELSE MetaScratchOff(sl, Len(sl)) + LineWidth(sl[Len(sl)]) + 1 - 1
+                       ELSE MetaScratchOff(sl, fj) + ColOf(sl[fj], FaultTok(f.k)) - 1
               entry == CHOOSE j \in 1..Len(sl) : MetaScratchOff(sl, j) <= off /\ \A i \in 1..Len(sl) : MetaScratchOff(sl, i) <= off => i <= j
           IN [line |-> base + 1 + keep[entry], col |-> 1 + (off - MetaScratchOff(sl, entry))]
 
